@@ -17,6 +17,7 @@ registry's observations) plus, for the configuration, the unbounded ∀-fields f
 -/
 import Pandora.Proofs.C18Ext
 import Pandora.Proofs.C18Eng
+import Pandora.Proofs.C18Hist
 import Pandora.Bridge.Plugin
 
 namespace Pandora.Props.C18
@@ -38,30 +39,9 @@ theorem C18_config (inp : Input) (obs : Obs) (h : run inp = some obs) :
     ∀ p ∈ products obs.steps,
       (inp.sh.cfg = .none → p.seen = []) ∧
       (inp.sh.cfg ≠ .none → ∀ f, f ≠ markField → p.seen.get f = (expected inp.sh inp.w).get f) := by
-  obtain ⟨_, hcase⟩ := run_cases h
+  obtain ⟨_, rfl⟩ := run_eq_phase h
   intro p hp
-  simp only [products, List.mem_filterMap] at hp
-  obtain ⟨s, hs, hsp⟩ := hp
-  have hres : s.res = .ok p := by
-    unfold product? at hsp
-    split at hsp
-    · simp only [Option.some.injEq] at hsp; subst hsp; assumption
-    · simp at hsp
-  suffices hh : SeenOk inp.sh inp.w p.seen from hh
-  rcases hcase with ⟨_, hsteps, _⟩ | ⟨_, hn, _, hcr⟩
-  · rw [hsteps] at hs
-    exact config_component inp.sh inp.w inp.k s hs p hres
-  · rcases hcr with ⟨e, _, hsteps⟩ | ⟨fac, hfac, hsteps, _⟩
-    · rw [hsteps] at hs
-      simp only [List.mem_singleton] at hs
-      subst hs
-      simp at hres
-    · rw [hsteps] at hs
-      simp only [List.mem_cons] at hs
-      rcases hs with rfl | hs
-      · simp at hres
-      · exact config_factory inp.sh inp.w inp.form.numOut inp.k hn (initSt inp.sh inp.w) (initSt_log _ _)
-          (initSt_shared _ _) fac hfac s hs p hres
+  exact config_phase inp _ (initSt_shared _ _) p hp
 
 /-- the executable form of `C18_config` the driver evaluates (any list of fields) -/
 theorem C18_config_spec (inp : Input) (obs : Obs) (fields : List Nat) (h : run inp = some obs) :
@@ -84,35 +64,8 @@ its error is the operation's result — the error result of `New`, of `NewFactor
 `func() Plugin` and the failure happens in a factory call; an operation without a failing invocation succeeds;
 a successful `NewFactory` is followed by exactly k results. -/
 theorem C18_errors (inp : Input) (obs : Obs) (h : run inp = some obs) : errorsOk inp obs = true := by
-  obtain ⟨_, hcase⟩ := run_cases h
-  rcases hcase with ⟨hf, hsteps, _⟩ | ⟨hf, hn, hpan, hcr⟩
-  · obtain ⟨h1, h2⟩ := errors_component inp.sh inp.w inp.k (initSt inp.sh inp.w)
-    simp only [errorsOk, hf, hsteps, h1, beq_self_eq_true, Bool.true_and, List.all_eq_true, Bool.and_eq_true,
-      Bool.not_eq_true']
-    exact h2
-  · have he := errors_factory inp.sh inp.w inp.form.numOut inp.k hn (initSt inp.sh inp.w) (initSt_log _ _)
-    have hshape : ∀ c calls, obs.steps = c :: calls →
-        stepErrOk false c = true → (isMade c || isErr c) = true →
-        (if isMade c = true then (calls.length == inp.k) = true else calls.isEmpty = true) →
-        (∀ s ∈ calls, stepErrOk (inp.form == .facNoErr) s = true ∧ isMade s = false) →
-        errorsOk inp obs = true := by
-      intro c calls hst a1 a2 a3 a4
-      cases hform : inp.form with
-      | component => exact absurd hform hf
-      | facNoErr | facErr =>
-        rw [hform] at a4
-        simp only [errorsOk, hform, hst, a1, a2, Bool.true_and, Bool.and_eq_true, List.all_eq_true,
-          Bool.not_eq_true']
-        refine ⟨?_, a4⟩
-        split <;> simp_all
-    rcases hcr with ⟨e, hce, hsteps⟩ | ⟨fac, hfac, hsteps, _⟩
-    · rw [hce] at he
-      refine hshape _ _ hsteps he (by simp [isMade, isErr]) (by simp [isMade]) (by simp)
-    · rw [hfac] at he
-      obtain ⟨e1, e2, e3⟩ := he
-      refine hshape _ _ hsteps e1 (by simp [isMade]) (by simp [isMade, e2]) ?_
-      rw [hpan]
-      exact e3
+  obtain ⟨_, rfl⟩ := run_eq_phase h
+  exact errors_phase inp _
 
 /-- **fresh**: when the requested form must configure per product — `New`, or a factory (of either type) made from
 a component constructor — every single call invokes the default-config function once (if one is registered),
@@ -146,20 +99,9 @@ theorem C18_fresh_counts (inp : Input) (obs : Obs) (h : run inp = some obs) (ha 
     ((callsOf inp obs).filterMap prodCell?).Nodup := by
   have hfresh := fresh_run h ha
   have hlen : (callsOf inp obs).length = inp.k := by
-    obtain ⟨_, hcase⟩ := run_cases h
-    rcases hcase with ⟨hf, hsteps, _⟩ | ⟨hf, hn, _, hcr⟩
-    · simp [callsOf, hf, hsteps, iter_length]
-    · simp only [freshApplies, Bool.and_eq_true, bne_iff_ne, ne_eq] at ha
-      have hc := ha.1.1
-      obtain ⟨_, _, _, q4⟩ := quad_proj (create_eq inp.sh inp.w inp.form.numOut (initSt inp.sh inp.w) (initSt_log _ _))
-      have : (createSpec inp.sh inp.w inp.form.numOut (initSt inp.sh inp.w)).2.2.2 = .ok (.wrapPlugin inp.form.numOut) := by
-        simp [createSpec, hfa, hc]
-      rw [this] at q4
-      rcases hcr with ⟨e, he, _⟩ | ⟨fac, _, hsteps, _⟩
-      · rw [q4] at he; simp at he
-      · cases hform : inp.form with
-        | component => exact absurd hform hf
-        | facNoErr | facErr => simp [callsOf, hform, hsteps, iter_length]
+    obtain ⟨_, rfl⟩ := run_eq_phase h
+    simp only [freshApplies, Bool.and_eq_true, bne_iff_ne, ne_eq] at ha
+    exact calls_length_phase inp _ (.inr ⟨hfa, ha.1.1⟩)
   simp only [freshOk, Bool.and_eq_true, List.all_eq_true, nodup, decide_eq_true_eq] at hfresh
   obtain ⟨⟨⟨⟨⟨⟨_, hcall⟩, n1⟩, n2⟩, n3⟩, _⟩, _⟩ := hfresh
   -- per-call counts, summed
@@ -402,6 +344,54 @@ theorem C18_engine (inp : Input) (inst : Nat) (per : Bool) (eo : EngineObs) (h :
   have hp : poolGunCalls inst = inst + 1 := by simp [poolGunCalls, warmupGunCalls, gunCallsPerInstance, Nat.add_comm]
   exact ⟨obs, h1, rfl, by simp only [gunInput]; omega, h2, by omega, h4, h5⟩
 
+/-! ### histories: all sequences of creations and calls on one registration -/
+
+/-- **histories**: a registration is used again and again — `New` / `NewFactory` with other user settings, each followed
+by any number of calls (phases, each started in the state the earlier ones left: configuration objects, invocation
+counters; one fault plan over the global invocation indices).  For EVERY shape, default values, fault plan and list of
+phases:
+(1) every phase satisfies the whole single-creation Spec with ITS OWN user settings — errors, structure, per-call,
+once, fresh, and its products were built from the defaults overlaid by the settings of THAT creation (the
+configuration clause excludes a shared default pointer, which keeps earlier users' settings by the plugin author's
+choice): an earlier creation never leaks into a later one;
+(2) across phases (unless the default-config function shares one object): the configurations held by the products of
+all per-product-configuring phases are pairwise distinct whichever creations they come from, and at the very end of
+the history every such product still reads its own serial number through its configuration pointer — no later
+creation or call disturbed it. -/
+theorem C18_history (h : HInput) (o : HObs) (fields : List Nat) (hr : runHist h = some o) :
+    histPhasesOk h fields h.phases o.phases = true ∧ histCrossOk h o = true := by
+  refine ⟨?_, hist_cross hr⟩
+  unfold runHist at hr
+  by_cases hreg : registerOk h.sh = true
+  · simp only [hreg, Bool.not_true, Bool.false_eq_true, if_false, Option.some.injEq] at hr
+    subst hr
+    exact hist_phases h fields h.phases (histInit h)
+  · simp [hreg] at hr
+
+/-- the verdict the driver computes for a history is `ok` on the model's own observation -/
+theorem C18_history_spec (h : HInput) (fields : List Nat) : judgeHist h (runHist h) fields = "ok" := by
+  cases hrun : runHist h with
+  | none =>
+    have : registerOk h.sh = false := by
+      unfold runHist at hrun
+      by_cases hreg : registerOk h.sh = true
+      · simp [hreg] at hrun
+      · simpa using hreg
+    simp [judgeHist, this]
+  | some o =>
+    have hreg : registerOk h.sh = true := by
+      unfold runHist at hrun
+      by_cases hreg : registerOk h.sh = true
+      · exact hreg
+      · simp [hreg] at hrun
+    obtain ⟨h1, h2⟩ := C18_history h o fields hrun
+    simp [judgeHist, hreg, h1, h2]
+
+/-- a single creation is the one-phase history (so everything above speaks about `run` as well) -/
+theorem C18_history_single (inp : Input) (obs : Obs) (h : run inp = some obs) :
+    obs = phaseObs inp (initSt inp.sh inp.w) :=
+  (run_eq_phase h).2
+
 /-- the whole Spec verdict the driver computes is `ok` on the model's own observation, for every input -/
 theorem C18_spec (inp : Input) (fields : List Nat) : judge inp (run inp) fields = "ok" := by
   cases hrun : run inp with
@@ -503,6 +493,19 @@ example : (run (exPlain .facErr)).map (fun o => o.steps.map fun s => s.evs.map k
 /-- a factory constructor through `New`: configuration, constructor and the factory it returns once per `New` -/
 example : (run { exOnce with form := .component }).map (fun o => o.steps.map fun s => s.evs.map kindOf) =
     some [[K.d, K.f, K.c, K.r], [K.d, K.f, K.c, K.r], [K.d, K.f, K.c, K.r]] := by decide
+
+/-! histories: two factories and a `New` on one registration, with different user settings -/
+def exHist : HInput :=
+  { sh := exFresh.sh, dflt := [(1, 5), (2, 6), (3, 7)], fillFault := noFault, ctorFault := noFault, factFault := noFault,
+    phases := [⟨.facNoErr, [(2, 9)], true, 2⟩, ⟨.facErr, [(1, 4)], true, 2⟩, ⟨.component, [], false, 1⟩] }
+
+/-- each creation's products see the defaults overlaid by THAT creation's settings, on five distinct configurations,
+and at the very end all five read their own serial number -/
+example : (runHist exHist).map (fun o => o.phases.map fun ob => (products ob.steps).map fun p =>
+      (p.cell, p.seen.get 1, p.seen.get 2, p.seen.get 3)) =
+    some [[(some 0, 5, 9, 7), (some 1, 5, 9, 7)], [(some 2, 4, 6, 7), (some 3, 4, 6, 7)], [(some 4, 5, 6, 7)]] := by decide
+example : (runHist exHist).map (·.views) = some [(0, 0), (1, 1), (2, 2), (3, 3), (4, 4)] := by decide
+example : (runHist exHist).map (fun o => freshCellsH exHist exHist.phases o.phases) = some [0, 1, 2, 3, 4] := by decide
 
 /-! registration types: a supported and three unsupported constructor types -/
 section
